@@ -912,6 +912,9 @@ impl MDL {
 
         self.model_data.shapes[shape_index].shape_mesh_count[lod_index] += 1;
 
+        // the replacement vertices were appended to this mesh
+        self.model_data.meshes[part.mesh_index as usize].vertex_count = part.vertices.len() as u16;
+
         self.update_headers();
     }
 
